@@ -8,22 +8,24 @@ import tempfile
 from harness.lib import hx, cz, clist
 
 ID = 'C14'
-RULE = ('three kinds of cases. rev: lists of DNA strings (all strings up to a length bound over the ten symbols '
+RULE = ('six kinds of cases. rev: lists of DNA strings (all strings up to a length bound over the ten symbols '
         'ACGTNacgtn, packed as rows of one ragged array, empty rows included, plus longer random rows) in ASCII, ACGT '
         'and ACGTN encoding, reverse-complemented once (ragged array, SequenceEntry, each row as a flat array) and '
         'twice (with an untouched and with a materialised intermediate), also on inputs that are not yet materialised views built by prior indexing (row slice, step, mask, fancy index, column slices, reversed columns); str: a reference string and a set of stranded intervals (every [a,b) of short references, random '
         'sets on longer ones, empty intervals included; since round 6 also, as ordinary cases, the formerly failing class: at least as many intervals as extracted bases — single 1-base intervals at every position, sets of 1-base intervals only, all-empty sets of 1..33 intervals, n == bases, n > bases — on all routes and for transcripts) through get_strand_specific_sequences (3 encodings), '
         'GenomicSequence.from_dict and Genome.from_file(...).read_sequence(); tr: all 64 codons, all pairs of '
-        'codons, random concatenations in mixed case, empty rows, plus rows with N/n or a length that is not a multiple of three (must raise); gen: genes.get_transcript_sequences on single- and multi-exon transcripts; seq: programs of several calls (translate, reverse complement, re-read) on the SAME ragged array / SequenceEntry and on a kept reverse complement, operands must stay unchanged. Every expected value is computed inside Coq from '
+        'codons, random concatenations in mixed case, empty rows, plus rows with N/n or a length that is not a multiple of three (must raise); gen: genes.get_transcript_sequences on single- and multi-exon transcripts; seq: programs of several calls (translate, reverse complement, re-read) on the SAME ragged array / SequenceEntry and on a kept reverse complement, operands must stay unchanged; fa (round 6): the indexed-FASTA backend Genome.from_file(fa).read_sequence()[intervals] on WRAPPED multi-record FASTA files (1..4 records, line widths 1..60, lengths w, 2w, 3w, 3w+1, 2w-1, one-line records, every fifth file without final line break, index given or written by the library), interval tables in annotation order — every interval inside an enclosing one placed directly after it for six (length, width) layouts, and random tables where a feature is followed by neighbours inside it / identical / overlapping right / left / adjacent / on another record with the same coordinates, starts snapped to line breaks — and 3-4 calls on the SAME GenomicSequence object (stranded, unstranded, reversed, sorted, same starts with other stops, again); the Coq model builds the file bytes and runs the seek/read/np.delete fetch on them. Every expected value is computed inside Coq from '
         'the Spec tables and also compared with Biopython. non-trivial = some row is not its own reverse '
         'complement / some minus-strand interval of length >= 2 / at least one codon')
 EXHAUSTIVE = {'quick': False, 'thorough': False}
 TIE = 'translator+correspondence (Gen/C14.v regenerated from dna.py, translate.py, kmers.py, genes.py, genomic_sequence.py; Bridge/C14.v; complement tables, lookup, row reversal, the explicit row mask broadcast_row_mask and the mask form / broadcast operand of the three np.where sites, np.where choice, TCAG 3-mer hash evaluated in Coq on the same inputs; Biopython as second oracle for the Spec tables)'
-ASSUMPTIONS = ['npstructures ragged indexing ([..., ::-1], flat[starts:stops], lazy views) is modelled as per-row reversal / slicing and tied by correspondence only (inputs are also handed over as not yet materialised views)',
+ASSUMPTIONS = ['indexed-FASTA route: the .fai on disk is an input of the model (in every generated case it equals the standard index fa_index_from, which is what C14_fasta_file / C14_fasta_call are stated for); file objects seek/read are modelled as skipn/firstn on the file bytes; files without final line break are tied by correspondence only',
+               'npstructures ragged indexing ([..., ::-1], flat[starts:stops], lazy views) is modelled as per-row reversal / slicing and tied by correspondence only (inputs are also handed over as not yet materialised views)',
                'Biopython 1.88 Seq.reverse_complement / Seq.translate (standard table) used as an independent oracle for the Coq Spec tables (bio_ok)',
                'genes.get_transcript_sequences is called with in-memory GFFExonEntry rows behind a minimal annotation object (len, get_exons): the GTF-file route raises TypeError at HEAD before reaching the strand code (the repository\'s own test_get_transcript_sequences is not in the passing baseline)',
                'translation of rows that do not split into ACGTacgt codons (N/n, length not a multiple of 3) is outside the quantifier; expected behaviour fixed as "must raise" and checked (C14_translate_total)']
-PARTIAL = ['nothing in force is partial: C14_revcomp_head, C14_stranded_head, C14_transcripts_head, C14_translate(_total), C14_link hold without a size or case guard for the code at HEAD (complement table repaired in c37d549; np.where mask repaired by broadcast_row_mask, notes/C14.fix-2.final.diff; C14_row_mask_where + C14_source_tie tie the regenerated mask expression of the three call sites to the row-wise choice of the model)',
+PARTIAL = ['round 6: C14_fasta_fetch / C14_fasta_file / C14_fasta_call / C14_link_fasta cover the indexed-FASTA fetch for files whose every line is terminated; the slow path IndexedFasta.get_interval_sequences for non-StringEncoding chromosomes is not observed',
+           'nothing in force is partial: C14_revcomp_head, C14_stranded_head, C14_transcripts_head, C14_translate(_total), C14_link hold without a size or case guard for the code at HEAD (complement table repaired in c37d549; np.where mask repaired by broadcast_row_mask, notes/C14.fix-2.final.diff; C14_row_mask_where + C14_source_tie tie the regenerated mask expression of the three call sites to the row-wise choice of the model)',
            'history, about the code BEFORE the repairs: C14_revcomp_partial / C14_stranded_partial / C14_revcomp_pinned_refuted / C14_stranded_pinned_refuted (lower-case ASCII table and column mask), C14_stranded_pinned_where / C14_stranded_pinned_where_fails / C14_transcripts_pinned_where (column mask `(..)[:, np.newaxis]`: correct iff more bases than items, otherwise raises — the former finding C14-stranded-where-not-broadcast)']
 PER_FILE = 40
 ALPH = {0: 'ACGTNacgtn', 1: 'ACGTacgt', 2: 'ACGTNacgtn'}
@@ -353,8 +355,185 @@ def generate(tier, seed):
             if route == 0 and i % 3 == 0:
                 c['refview'] = ['offset', 'rev', 'step'][(i // 3) % 3]   # the reference itself is a view of a longer / reversed / interleaved array
             cases.append(c)
+
+    # ---- fa (round 6): the indexed-FASTA backend on WRAPPED multi-record FASTA files, several calls on the same
+    #      GenomicSequence object; interval tables in annotation order (a feature followed by features inside it),
+    #      every relation of two consecutive intervals (nested / identical / overlapping / adjacent / disjoint /
+    #      reversed / other record in between) x every position relative to the line breaks
+    cases.extend(_fa_cases(rng, quick))
     return cases
 
+
+
+# ----------------------------------------------------------------------------- fa: wrapped FASTA, indexed backend
+def _fa_calls(ivs, rng, k):
+    """the calls made one after the other on the same object: (intervals, stranded)"""
+    rev = ivs[::-1]
+    progs = [[(ivs, True), (ivs, False), (rev, True), (ivs, True)],
+             [(ivs, False), (ivs, True)],
+             [(rev, True), (ivs, True), (ivs, True)],
+             [(ivs, True), (sorted(ivs), True), (rev, False)],
+             # the same starts with other stops, then the first table again (a result remembered by its starts)
+             [(ivs, True), ([(c, a, a + (b - a) // 2, st) for c, a, b, st in ivs], True), (ivs, True)]]
+    return [dict(ivs=[list(x) for x in i], stranded=st) for i, st in progs[k % len(progs)]]
+
+
+def _fa_case(recs, ivs, rng, k, nl_end=True, fai='lib'):
+    return dict(op='fa', recs=[list(r) for r in recs], nl_end=nl_end, fai=fai, calls=_fa_calls(ivs, rng, k))
+
+
+def _fa_cases(rng, quick):
+    out = []
+    k = 0
+
+    def rstr(L, alph):
+        return ''.join(rng.choice(alph) for _ in range(L))
+
+    def distinct(L):
+        """a sequence in which a shift by a few bases is always visible (no periodic stretches)"""
+        s = rstr(L, ALPH[2])
+        return ''.join(c if i == 0 or c.upper() != s[i - 1].upper() else 'ACGT'[('ACGT'.index(c.upper()) + 1) % 4] if c.upper() in 'ACGT' else 'A'
+                       for i, c in enumerate(s))
+
+    # (1) every interval inside an enclosing one, directly after it, for small (length, width) layouts: width 1, width
+    #     dividing the length, last line partial, one-line record (width >= length), enclosing interval = whole record /
+    #     starting and ending mid-line / starting or ending exactly at a line break
+    layouts = [(12, 3), (10, 4), (7, 1), (9, 9), (8, 5), (6, 20)] if quick else [(12, 3), (10, 4), (7, 1), (9, 9), (8, 5), (6, 20), (15, 4), (14, 7), (16, 2), (13, 6)]
+    for L, w in layouts:
+        seq = distinct(L)
+        outers = sorted({(0, L), (1, L - 1), (min(w, L) - 1, L), (0, max(w, 1) if w <= L else L), (min(w, L), L)})
+        for (a1, b1) in outers:
+            if not 0 <= a1 < b1 <= L:
+                continue
+            inner = [(a, b) for a in range(a1, b1 + 1) for b in range(a, b1 + 1)]
+            rng.shuffle(inner)
+            per = 14
+            if quick and len(inner) > 3 * per:
+                # keep the boundary members (same start, same end, start on every line, empty) and a sample of the rest
+                keep = [x for x in inner if x[0] == a1 or x[1] == b1 or x[0] == x[1] or x[0] % w == 0 or x[1] % w == 0]
+                rest = [x for x in inner if x not in keep]
+                inner = (keep + rest)[:max(3 * per, len(keep))][:5 * per]
+            for chunk in _pack(inner, per):
+                st = rng.choice('+-')
+                ivs = [(0, a1, b1, st)] + [(0, a, b, st if rng.random() < 0.7 else rng.choice('+-')) for a, b in chunk]
+                recs = [('c', seq, w), ('d', 'GGGGAC', 4)]
+                out.append(_fa_case(recs, ivs, rng, k, nl_end=(k % 5 != 4), fai=('given' if k % 2 else 'lib')))
+                k += 1
+
+    # (2) annotation-ordered tables on several records with different line widths: features followed by features inside
+    #     them (transcript, then its exons), repeated features, overlapping and adjacent neighbours, jumps to another record
+    #     and back
+    names = ['chr1', 'chr2', 'chrX', 'chrM']
+    for i in range(60 if quick else 400):
+        n = rng.randint(1, 4)
+        recs = []
+        for j in range(n):
+            w = rng.choice([1, 2, 3, 5, 7, 10, 20, 60])
+            L = rng.choice([w, 2 * w, 3 * w, 3 * w + 1, 2 * w - 1]) if rng.random() < 0.4 else rng.randint(1, 70)
+            L = max(1, min(L, 70))
+            recs.append((names[j], distinct(L) if i % 4 else distinct(L).upper(), w))
+        ivs = []
+        for _ in range(rng.randint(1, 4)):
+            c = rng.randrange(n)
+            L, w = len(recs[c][1]), recs[c][2]
+            a1 = rng.randint(0, L)
+            b1 = rng.randint(a1, L)
+            if rng.random() < 0.5:          # snap to line breaks
+                a1 = min(L, (a1 // w) * w)
+                b1 = max(a1, min(L, -(-b1 // w) * w))
+            st = rng.choice('+-')
+            ivs.append((c, a1, b1, st))
+            for _ in range(rng.choice([0, 1, 2, 3, 5])):
+                kind = rng.choice(['in', 'in', 'in', 'same', 'right', 'left', 'adj', 'other'])
+                if kind == 'in':
+                    a = rng.randint(a1, b1)
+                    b = rng.randint(a, b1)
+                elif kind == 'same':
+                    a, b = a1, b1
+                elif kind == 'right':
+                    a = rng.randint(a1, b1)
+                    b = rng.randint(b1, L)
+                elif kind == 'left':
+                    b = rng.randint(a1, b1)
+                    a = rng.randint(0, b if b < a1 else a1)
+                elif kind == 'adj':
+                    a, b = b1, rng.randint(b1, L)
+                else:
+                    c2 = rng.randrange(n)
+                    L2 = len(recs[c2][1])
+                    a = rng.randint(0, L2)
+                    b = rng.randint(a, L2)
+                    if rng.random() < 0.5:      # the same coordinates on another record
+                        a, b = min(a1, L2), min(b1, L2)
+                    ivs.append((c2, a, b, rng.choice('+-')))
+                    continue
+                if rng.random() < 0.3:
+                    a = min(b, (a // w) * w)
+                ivs.append((c, a, b, st if rng.random() < 0.7 else rng.choice('+-')))
+        out.append(_fa_case(recs, ivs, rng, k, nl_end=(i % 5 != 4), fai=('given' if i % 2 else 'lib')))
+        k += 1
+    return out
+
+
+def _fa_text(case):
+    t = ''
+    for name, seq, w in case['recs']:
+        t += '>%s\n' % name + ''.join(seq[i:i + w] + '\n' for i in range(0, len(seq), w))
+    return t if case['nl_end'] else t[:-1]
+
+
+def _fa_std_index(case):
+    """the samtools-faidx index of _fa_text(case): name, rlen, offset, lenc, lenb"""
+    rows, pos = [], 0
+    for name, seq, w in case['recs']:
+        off = pos + len(name) + 2
+        lenc = min(w, len(seq))
+        rows.append((name, len(seq), off, lenc, lenc + 1))
+        pos = off + len(seq) + -(-len(seq) // w)
+    return rows
+
+
+def _observe_fa(case):
+    import bionumpy as bnp
+    from bionumpy.datatypes import StrandedInterval
+    d = tempfile.mkdtemp(prefix='c14fa_')
+    out = dict(calls=[], fai=[], fsize=0)
+    try:
+        path = os.path.join(d, 'g.fa')
+        text = _fa_text(case)
+        with open(path, 'w') as f:
+            f.write(text)
+        out['fsize'] = os.path.getsize(path)
+        if case['fai'] == 'given':
+            with open(path + '.fai', 'w') as f:
+                f.write(''.join('%s\t%d\t%d\t%d\t%d\n' % r for r in _fa_std_index(case)))
+        names = [r[0] for r in case['recs']]
+        try:
+            g = bnp.Genome.from_file(path, filter_function=lambda x: True)
+            gs = g.read_sequence()
+        except Exception as e:
+            out['calls'] = [_err(e) for _ in case['calls']]
+            return out
+        try:
+            idx = {}
+            for line in open(path + '.fai'):
+                p = line.rstrip('\n').split('\t')
+                idx[p[0]] = [int(x) for x in p[1:5]]
+            out['fai'] = [idx.get(n, [0, 0, 1, 1]) for n in names]
+        except Exception:
+            out['fai'] = []
+        for call in case['calls']:
+            try:
+                I = StrandedInterval.from_entry_tuples([(names[c], a, b, st) for c, a, b, st in call['ivs']])
+                r = gs[g.get_intervals(I, stranded=call['stranded'])]
+                rows = _rows(r)
+                ok = len(rows) == len(call['ivs']) and r.lengths.tolist() == [b - a for c, a, b, st in call['ivs']]
+                out['calls'].append([0 if ok else 9, rows])
+            except Exception as e:
+                out['calls'].append(_err(e))
+        return out
+    finally:
+        shutil.rmtree(d, ignore_errors=True)
 
 # ----------------------------------------------------------------------------- implementation runner
 def _err(e):
@@ -380,6 +559,8 @@ def observe(case):
     from bionumpy.datatypes import SequenceEntry, StrandedInterval
     encs = {0: None, 1: DNAEncoding, 2: ACGTnEncoding}
     op = case['op']
+    if op == 'fa':
+        return _observe_fa(case)
     if op == 'rev':
         rows, enc, view = _eff(case), encs[case['enc']], case.get('view')
         out = dict(bio=[_bio_rc(s).encode().hex() for s in rows], once=[], twice=[])
@@ -672,6 +853,13 @@ def _srows(rows):
 
 def to_coq(case, o):
     op = case['op']
+    if op == 'fa':
+        recs = clist(['(%s, %s, %s)' % (hx(n.encode()), hx(sq.encode()), cz(w)) for n, sq, w in case['recs']], 'fa_rec')
+        fai = clist(['(%s, %s, %s, %s)' % tuple(cz(x) for x in r) for r in o['fai']], 'fa_idx')
+        calls = clist(['(%s, %s, %s)' % (clist(['(%s, %s, %s, %s)' % (cz(c), cz(a), cz(b), cz(ord(st))) for c, a, b, st in cl['ivs']], 'iv4'),
+                                         'true' if cl['stranded'] else 'false', _obs(ob))
+                       for cl, ob in zip(case['calls'], o['calls'])], '(list iv4 * bool * obs)')
+        return 'CFa %s %s %s %s %s' % (recs, 'true' if case['nl_end'] else 'false', cz(o['fsize']), fai, calls)
     if op == 'rev':
         return 'CRev %s %s %s %s %s' % (cz(case['enc']), _srows(_eff(case)), clist([_obs(x) for x in o['once']], 'obs'),
                                         clist([_obs(x) for x in o['twice']], 'obs'), _hrows(o['bio']))
@@ -694,6 +882,8 @@ def _rc(s):
 
 def nontrivial(case, o):
     op = case['op']
+    if op == 'fa':
+        return any(st == '-' and b - a >= 2 for c, a, b, st in case['calls'][0]['ivs'])
     if op == 'rev':
         return any(len(s) >= 2 and _rc(s) != s and s[::-1] != s for s in _eff(case))
     if op == 'tr':
@@ -707,6 +897,10 @@ def nontrivial(case, o):
 
 def describe(case, o):
     d = dict(case)
+    if case['op'] == 'fa':
+        d['observed'] = [[x[0], [bytes.fromhex(h).decode('latin1') for h in x[1][:8]]] for x in o['calls']]
+        d['fai_on_disk'] = o['fai']
+        return d
     if case['op'] == 'rev':
         d['rows'] = case['rows'][:6]
         d['observed'] = [o['once'][0][0], [bytes.fromhex(h).decode('latin1') for h in o['once'][0][1][:6]]]
@@ -728,7 +922,25 @@ def distribution(cases, obs):
         vk = (c['op'] + ':' + c['view']['kind']) if c.get('view') else ('str:ref_' + c['refview'] if c.get('refview') else None)
         if vk:
             d['lazy_view_inputs'][vk] = d['lazy_view_inputs'].get(vk, 0) + 1
-        if c['op'] == 'rev':
+        if c['op'] == 'fa':
+            f = d.setdefault('fa', dict(cases=0, calls=0, intervals=0, nested_after_enclosing=0, nested_on_later_line=0,
+                                        identical_neighbours=0, no_final_newline=0, fai_given=0, one_line_records=0, widths={}))
+            f['cases'] += 1
+            f['calls'] += len(c['calls'])
+            f['no_final_newline'] += 0 if c['nl_end'] else 1
+            f['fai_given'] += c['fai'] == 'given'
+            for n, sq, w in c['recs']:
+                f['widths'][str(w)] = f['widths'].get(str(w), 0) + 1
+                f['one_line_records'] += len(sq) <= w
+            iv = c['calls'][0]['ivs']
+            f['intervals'] += len(iv)
+            for p, q in zip(iv, iv[1:]):
+                if p[0] == q[0] and p[1] <= q[1] and q[2] <= p[2]:
+                    f['nested_after_enclosing'] += 1
+                    f['identical_neighbours'] += (p[1], p[2]) == (q[1], q[2])
+                    f['nested_on_later_line'] += q[1] // c['recs'][p[0]][2] > p[1] // c['recs'][p[0]][2]
+            code = max([x[0] for x in o['calls']] or [0]) if isinstance(o, dict) and o.get('calls') else -1
+        elif c['op'] == 'rev':
             k = 'enc%d' % c['enc']
             d['rev'][k] = d['rev'].get(k, 0) + 1
             d['rows'] += len(c['rows'])
@@ -770,6 +982,8 @@ def finding(case, o):
 
 def signature(case, o):
     op = case['op']
+    if op == 'fa':
+        return 'fa codes%s' % sorted({x[0] for x in o['calls']})
     if op == 'rev':
         return 'rev enc%d code%s' % (case['enc'], o['once'][0][0] if o.get('once') else '?')
     if op == 'tr':
